@@ -68,6 +68,21 @@ const (
 var kindNames = [...]string{"Uint8", "Uint16", "Uint24", "Uint32", "Uint64", "Int8", "Int16", "Int24", "Int32", "Int64", "Bytes", "String", "Byte", "Write"}
 var kindWidth = [...]int{1, 2, 3, 4, 8, 1, 2, 3, 4, 8, -1, -1, 1, -1}
 
+// sniff models a caller that has looked at the beginning of the file (a magic number, a header)
+// before handing the handle over: the handle's own read offset is then not zero. A reader over "the
+// file" ranges over the whole file all the same (its size is the file's, its offsets are absolute).
+func sniff(ctx *core.Ctx, f *os.File, n int) {
+	if n == 0 || !ctx.T.Chance(1, 3) {
+		return
+	}
+	k := 1 + ctx.T.Draw(min(n, 16))
+	if ctx.T.Chance(1, 4) {
+		k = n
+	}
+	io.ReadFull(f, make([]byte, k))
+	ctx.Count("probe_file_handle_offset_not_zero")
+}
+
 func isSigned(k int) bool { return k >= kI8 && k <= kI64 }
 
 type wrOp struct {
@@ -328,6 +343,7 @@ func (m *c19) open(be int, data []byte, plan faultio.Plan) (*parse.BinaryReader,
 		case beFile:
 			var f *os.File
 			if f, err = os.Open(path); err == nil {
+				sniff(ctx, f, len(data))
 				r, err = parse.NewBinaryReaderFile(f)
 				m.closers = append(m.closers, f)
 			}
@@ -338,6 +354,7 @@ func (m *c19) open(be int, data []byte, plan faultio.Plan) (*parse.BinaryReader,
 		case beMmapFile:
 			var f *os.File
 			if f, err = os.Open(path); err == nil {
+				sniff(ctx, f, len(data))
 				r, err = parse.NewBinaryReaderMmapFile(f)
 				m.closers = append(m.closers, f)
 			}
